@@ -9,7 +9,8 @@
      Rebuilt how m     not persisted; rebuilt by the reading function from persisted members and the assets
      PerCall m         not persisted; reset by the reading function and re-derived at the start of the next engine call
                        before anything reads it (c02_context_rederived), or empty at every wait (pushedFlow:
-                       EngineInv.post_inv, used by c02_resume_bisim)
+                       EngineInv.post_inv, used by c02_resume_bisim).  parentRun was in this class until goflow f4c75dd;
+                       readSession now rebuilds it (c02_reread_keeps_parent)
      Exempt            the two values the property statement exempts (@webhook, @legacy_extra)
      Host              supplied by the caller of ReadSession (engine, session assets) or a back pointer
    No proofs in this file. *)
@@ -39,7 +40,7 @@ Definition session_classes : list (string * fclass) :=
     ("batchStart", PerCall "t_batch");
     ("runsByUUID", Rebuilt "filled by addRun for every run read, in order" "lookup_uuid over the runs read so far");
     ("pushedFlow", PerCall "s_pushed");
-    ("parentRun", PerCall "t_parent");
+    ("parentRun", Rebuilt "prepareForSprint in readSession (since goflow f4c75dd), from the run summary in the trigger" "t_parent");
     ("engine", Host) ].
 
 Definition run_classes : list (string * fclass) :=
@@ -118,6 +119,9 @@ Definition names_with (p : fclass -> bool) (classes : list (string * fclass)) : 
 Definition is_per_call (c : fclass) : bool := match c with PerCall _ => true | _ => false end.
 Definition is_exempt (c : fclass) : bool := match c with Exempt => true | _ => false end.
 
-(* what Persist.transient + Engine.s_pushed stand for, and the statement's two exemptions *)
-Definition per_call_members : list string := ["currentResume"; "batchStart"; "pushedFlow"; "parentRun"].
+(* what is reset by a read (Persist.transient's t_batch, t_resume and Engine.s_pushed), and the statement's two exemptions *)
+Definition per_call_members : list string := ["currentResume"; "batchStart"; "pushedFlow"].
+(* unpersisted members the reader rebuilds from persisted ones *)
+Definition rebuilt_session_members : list string := ["runsByUUID"; "parentRun"].
+Definition is_rebuilt (c : fclass) : bool := match c with Rebuilt _ _ => true | _ => false end.
 Definition exempt_members : list string := ["webhook"; "legacyExtra"].
